@@ -42,6 +42,13 @@ def main(argv=None) -> int:
             from dst.c15 import check
 
             return check.main(a.tier, a.replay, a.runs, a.budget, a.start)
+        if a.what == "c09-final":
+            import json
+
+            from dst.c09 import engine as e9
+
+            print(json.dumps(e9.child_final_only(json.loads(sys.stdin.read()))))
+            return 0
         if a.what == "selftest":
             from dst import selftest
 
